@@ -44,6 +44,8 @@ inductive Atom where
   | fgDelta | bgDelta | ulDelta | attrDelta | ulStyleDelta | cursorNextStyle
   -- cell loop: the unchanged cell
   | unchanged | skipAdvance | nullLoop | colSkip
+  -- render(): pointer shape, trailing cursor show
+  | shapeChanged | wrShape | shapeAssign | cursorAppears | wrShowCursor
   | none_       -- a `switch` / `default` line (no text)
   | unknown
   deriving DecidableEq, Repr, Inhabited
@@ -106,6 +108,11 @@ def atomOf (t : String) : Atom :=
   else if t = "skip:=vx.advance(next)" then .skipAdvance
   else if t = "i:=1;i<skip+1;i+=1" then .nullLoop
   else if t = "col+=skip" then .colSkip
+  else if t = "vx.mouseShapeLast!=vx.mouseShapeNext" then .shapeChanged
+  else if t = "vx.tw.WriteString(tparm(mouseShape,vx.mouseShapeNext))" then .wrShape
+  else if t = "vx.mouseShapeLast=vx.mouseShapeNext" then .shapeAssign
+  else if t = "vx.cursorNext.visible&&!vx.cursorLast.visible" then .cursorAppears
+  else if t = "vx.tw.WriteString(vx.showCursor())" then .wrShowCursor
   else .unknown
 
 /-- `continue` has kind "continue" and no text. -/
@@ -159,6 +166,9 @@ structure Env where
   refresh : Bool := false        -- vx.refresh
   skipv : Nat := 0               -- `skip`
   nulled : Nat := 0              -- how many following `last` entries the nulling loop was asked to clear
+  shapeNext : String := ""       -- vx.mouseShapeNext
+  shapeLast : String := ""       -- vx.mouseShapeLast
+  cl : CursorState := {}         -- vx.cursorLast
   w : Int := 0
   ret : Option Int := none
   cn : CursorState := {}
@@ -190,6 +200,8 @@ def evalG (cw : String → Nat) (caps : Caps) (a : Atom) (e : Env) : Env × Bool
   | .semiIndex => ({ e with idx := semiIndexL e.linkPs.toList }, (semiIndexL e.linkPs.toList).isSome)
   | .nextWidth0 => (e, e.next.w == 0)
   | .unchanged => (e, decide (e.next = e.last) && !e.refresh && decide (e.col ≥ e.dirty))
+  | .shapeChanged => (e, decide (e.shapeLast ≠ e.shapeNext))
+  | .cursorAppears => (e, e.cn.visible && !e.cl.visible)
   | .nextWide => (e, decide (e.next.w > 1) && caps.explicitWidth)
   | _ => ({ e with unknown := true }, false)
 
@@ -238,6 +250,9 @@ def evalS (cw : String → Nat) (caps : Caps) (a : Atom) (e : Env) : Env :=
   | .skipAdvance => { e with skipv := advance cw e.next }
   | .nullLoop => { e with nulled := e.skipv }
   | .colSkip => { e with col := e.col + e.skipv }
+  | .wrShape => { e with out := e.out ++ [Tok.pointer e.shapeNext] }
+  | .shapeAssign => { e with shapeLast := e.shapeNext }
+  | .wrShowCursor => { e with out := e.out ++ showCursorToks e.cn }
   | _ => { e with unknown := true }
 
 /-! ### execution -/
